@@ -255,7 +255,7 @@ class Spec:
                     # remaining actions of the transition are skipped; the transition epilogue still runs
                     return kepi(st3, trace2, conds2)
                 out.append({"conds": conds2, "st": st3, "trace": trace2, "term": ("return", "OK")})
-            return self.run_actions(list(a.replacement_actions()), st, trace, inval, ctx, conds, out, after, after)
+            return self.run_actions(list(a.replacement_actions()), st, trace, inval, ctx, conds, out, after, kepi if ctx in ('feed', 'end') else after)
         if isinstance(a, n.ConditionalAction):
             neg = []
             for c in a.conditions:
@@ -297,7 +297,8 @@ class Spec:
                     out.append({"conds": conds2, "st": st2, "trace": trace2, "term": ("redispatch",)})
             elif ctx == "end":
                 # `end` never consumes: the parse is complete iff the machine now sits in an accepting state
-                out.append({"conds": conds2, "st": st2, "trace": trace2, "term": ("end-verdict",)})
+                overridden = not z3.eq(z3.simplify(st2[("m", "state")]), z3.simplify(st[("m", "state")]))
+                out.append({"conds": conds2, "st": st2, "trace": trace2, "term": ("end-verdict",), "overridden": overridden})
             elif immediate_done:
                 out.append({"conds": conds2, "st": st2, "trace": trace2, "term": ("return", "DONE")})
             elif ti is None:
